@@ -141,7 +141,7 @@ class SlurmScriptAdapter(SchedulerScriptAdapter):
             LOGGER.error(err_msg)
             raise RuntimeError(err_msg)
 
-        resources["job-name"] = step.name.replace(" ", "_")
+        resources["job-name"] = re.sub(r"\s", "_", step.name)
         resources["comment"] = step.description.replace("\n", " ")
 
         modified_header = ["#!{}".format(self._exec)]
